@@ -43,9 +43,13 @@ def nproc():
 def _worker(args):
     fn, chunk, k0 = args
     signal.signal(signal.SIGVTALRM, _alarm)
+    saved = (dict(_sig), _hung[0], set(_reported))
     _sig.clear(); _hung[0] = 0; _reported.clear()
     col = Collector()
-    fn(col, chunk, k0)
+    try:
+        fn(col, chunk, k0)
+    finally:                               # (matters only when the chunk is run in the parent process itself)
+        _sig.clear(); _sig.update(saved[0]); _hung[0] = saved[1]; _reported.clear(); _reported.update(saved[2])
     return col
 
 
@@ -54,6 +58,7 @@ def spread(ctx, fn, items):
     (each has its own pyg_base registry); what they collected is merged into ctx in the order of the items, so the
     outcome does not depend on the number of processes"""
     import multiprocessing
+    import pyg_base                    # (before the fork: the workers inherit the imported library)
     n = nproc()
     size = max(1, -(-len(items) // (4 * n)))
     jobs = [(fn, items[i:i + size], i) for i in range(0, len(items), size)]
@@ -74,6 +79,8 @@ def spread(ctx, fn, items):
         for a in col.assumptions:
             if a not in ctx.assumptions:
                 ctx.assumptions.append(a)
+        for k, v in col.extra.items():
+            ctx.extra[k] = ctx.extra.get(k, 0) + v
 
 
 def record(ctx, clause, case, detail):
@@ -225,11 +232,10 @@ def case_of(cfg, q, **more):
 
 
 # ---- S2C 1: arithmetic cases enumerated by TLC --------------------------------------------------
-def s2c_arith(ctx, lines):
-    k = 0
-    for line in lines:
+def s2c_arith(ctx, lines, k0=0):
+    for k, line in enumerate(lines, k0):
         if settled(ctx):
-            ctx.assumptions.append('arithmetic replay stopped early: %d calls did not terminate' % _hung[0])
+            ctx.assumptions.append('arithmetic replay stopped early: calls did not terminate')
             return
         cfg, t = line['cfg'], line['t']
         reg = Registry()
@@ -255,103 +261,226 @@ def s2c_arith(ctx, lines):
         finally:
             reg.clean()
         if cfg['hol']:
-            ctx.note(('arith', tuple(cfg['hol']), tuple(cfg['wk']), cfg['adj'], cfg['lo'], t))
+            ctx.note(('arith', tuple(cfg['hol']), tuple(cfg['wk']), cfg['adj'], cfg['lo'], cfg['hi'], t))
+        if cfg['hol'] and (cfg['hol'][0] == cfg['lo'] or cfg['hol'][-1] == cfg['hi']):
+            ctx.note(('arith-end', tuple(cfg['hol']), tuple(cfg['wk']), cfg['adj'], cfg['lo'], cfg['hi'], t))
         if k % 499 == 0:
             ctx.sample({'s2c_arith': {'cfg': cfg, 't': t, 'cases': line['cases'][:6]}})
         ctx.traces += 1
-        k += 1
+
+
+def check_families(lines):
+    """vacuity guard on what TLC enumerated (counting only): the families the blind spots were in are all there"""
+    fam = {'end_first': 0, 'end_last': 0, 'single_day': 0, 'backwards': 0, 'passed_adj_table': 0, 'passed_adj_loop': 0}
+    for line in lines:
+        cfg, t = line['cfg'], line['t']
+        if cfg['hol']:
+            fam['end_first'] += cfg['hol'][0] == cfg['lo']
+            fam['end_last'] += cfg['hol'][-1] == cfg['hi']
+        for op, n, u, a, want in line['cases']:
+            if op == 'drange':
+                fam['single_day'] += u == t
+                fam['backwards'] += u < t
+            elif op == 'add' and a not in ('', cfg['adj']):
+                fam['passed_adj_table' if abs(n) > 1 else 'passed_adj_loop'] += 1
+    if not all(fam.values()):
+        raise Machinery('the arithmetic generator left a family of cases empty: %r' % (fam,))
+    return fam
 
 
 # ---- S2C 2: histories of the registry machine ------------------------------------------------------
 _reported = set()
+_spell = [0]
 
 
-REG_E = datetime.date(2000, 1, 31).toordinal()      # the menu calendars of MC_CalendarReg range over E - 25 .. E + 27
-REG_LO, REG_HI = REG_E - 25, REG_E + 27
+def given(p):
+    """the parameters a registration gives, as keyword arguments (what is not given is not passed at all)"""
+    kw = {}
+    if p['hol']:
+        kw['holidays'] = [D(o) for o in p['hol'][0]]
+    if p['wk']:
+        kw['weekend'] = list(p['wk'][0])
+    if p['lo']:
+        kw['t0'] = D(p['lo'][0])
+    if p['hi']:
+        kw['t1'] = D(p['hi'][0])
+    return kw
+
+
+def spelled(f, first, kw, **more):
+    """f(first, ...) with the leading given parameters passed positionally in every other call"""
+    _spell[0] += 1
+    args = [first]
+    kw = dict(kw)
+    if _spell[0] % 2:
+        for name in ('holidays', 'weekend', 't0', 't1'):
+            if name not in kw:
+                break
+            args.append(kw.pop(name))
+    return f(*args, **kw, **more)
 
 
 def do_event(ev, heap, reg):
-    """one event of a registry history through the public API; returns the encoded outcome"""
+    """one event of a registry history through the public API; returns the encoded outcome.
+    heap: (object, key) in the order the specification allocates objects"""
     from pyg_base import Calendar, calendar
     op = ev['op']
-    if op == 'Register':
-        cal = calendar(reg.key(ev['k']), [D(o) for o in ev['hol']], list(ev['wk']), D(REG_LO), D(REG_HI))
-        heap.append(cal)
+    if op in ('Register', 'reg'):
+        key = reg.key(ev['k'])
+        heap.append((spelled(calendar, key, given(ev['p'])), key))
+        return holidays_of(calendar(key))
+    if op in ('Construct', 'con'):
+        key = reg.key(ev['k'])
+        cal = spelled(Calendar, key, given(ev['p']), adj=ev['adj'])
+        heap.append((cal, key))
         return holidays_of(cal)
-    if op == 'Construct':
-        cal = Calendar(reg.key(ev['k']), [D(o) for o in ev['hol']], list(ev['wk']), D(REG_LO), D(REG_HI), ev['adj'])
-        heap.append(cal)
-        return holidays_of(cal)
-    if op == 'RegisterObject':
-        obj = heap[ev['o'] - 1]
+    if op in ('RegisterObject', 'rego'):
+        obj, key = heap[ev['o'] - 1]
         calendar(obj)
-        return holidays_of(calendar(obj.key))
-    if op == 'RegisterObjectWith':
-        obj = heap[ev['o'] - 1]
-        heap.append(calendar(obj, holidays=[D(o) for o in ev['hol']]))
-        return holidays_of(calendar(obj.key))
-    if op == 'Fetch':
+        return holidays_of(calendar(key))
+    if op in ('RegisterObjectWith', 'regw'):
+        obj, key = heap[ev['o'] - 1]
+        heap.append((spelled(calendar, obj, given(ev['p'])), key))
+        return holidays_of(calendar(key))
+    if op in ('Fetch', 'fetch'):
         return holidays_of(calendar(reg.key(ev['k'])))
-    if op == 'Query':
+    if op in ('Query', 'q'):
         return ask(calendar(reg.key(ev['k'])), ev['q'])
-    if op == 'QueryObj':
-        return ask(heap[ev['o'] - 1], ev['q'])
+    if op in ('QueryObj', 'qo'):
+        return ask(heap[ev['o'] - 1][0], ev['q'])
     raise Machinery('unknown event %r' % (ev,))
 
 
-def replay_history(ctx, hist):
+def perform(ev, heap, reg):
+    try:
+        return do_event(ev, heap, reg)
+    except Machinery:
+        raise
+    except Exception as e:
+        return {'kind': 'exc', 'cls': type(e).__name__}
+
+
+def _strip(ev):
+    return {k: v for k, v in ev.items() if k != 'want'}
+
+
+def history_case(ev, hist, i):
+    """stable, matchable description of a failing step: `history` = the events up to and including the failing one"""
+    evs = hist[:i + 1]
+    case = {'op': ev['op'], 'kind': 'history', 'step': i + 1, 'ops': [e['op'] for e in evs], 'history': evs}
+    p = ev.get('p')
+    if p:
+        case.update({'holidays_empty': p['hol'] == [[]], 'weekend_empty': p['wk'] == [[]], 'given': sorted(k for k in p if p[k])})
+    else:
+        case['holidays_empty'] = False
+    regs = [e for e in evs if e.get('p')]
+    case['weekend_changed'] = any(e['p']['wk'] for e in regs[1:])
+    case['range_changed'] = any(e['p']['lo'] or e['p']['hi'] for e in regs[1:])
+    if 'q' in ev:
+        q = ev['q']
+        case.update({'query': q['op'], 'n': q['n'], 'path': 'table' if abs(q['n']) > 1 else 'loop', 'explicit_adj': q['a'] != ''})
+    return case
+
+
+def judge_event(ctx, ev, got, hist, i):
+    if 'q' in ev:
+        ok = any(got == {'kind': 'val', 'v': w} for w in ev['want'])
+        clause = 'registry_query_' + ev['q']['op']
+    else:
+        ok = got == {'kind': 'val', 'v': ev['want']}
+        clause = 'registry_reflects_holidays'
+    if not ok:
+        case = history_case(ev, hist, i)
+        if repr(case['history']) not in _reported:          # the same failing history is reported once
+            _reported.add(repr(case['history']))
+            record(ctx, clause, case, {'expected': ev['want'], 'observed': got})
+    return ok
+
+
+def replay_history(ctx, hist, finals=()):
+    """the history step by step; then - on the state it reached - every final question TLC printed for it"""
     reg = Registry()
-    heap = []            # real objects in the order the specification allocates them
+    heap = []
     try:
         for i, ev in enumerate(hist):
-            try:
-                got = do_event(ev, heap, reg)
-            except Machinery:
-                raise
-            except Exception as e:
-                got = {'kind': 'exc', 'cls': type(e).__name__}
+            got = perform(ev, heap, reg)
             ctx.evals += 1
-            if 'q' in ev:
-                ok = any(got == {'kind': 'val', 'v': w} for w in ev['want'])
-                clause = 'registry_query_' + ev['q']['op']
-            else:
-                ok = got == {'kind': 'val', 'v': ev['want']}
-                clause = 'registry_reflects_holidays'
-            if not ok:
-                case = {'op': ev['op'], 'kind': 'history', 'step': i + 1, 'ops': [e['op'] for e in hist[:i + 1]],
-                        'holidays_empty': ev.get('hol') == [], 'history': hist[:i + 1]}
-                if 'q' in ev:
-                    case.update({'query': ev['q']['op'], 'n': ev['q']['n'], 'path': 'table' if abs(ev['q']['n']) > 1 else 'loop'})
-                if repr(case['history']) not in _reported:          # the same failing history is reported once
-                    _reported.add(repr(case['history']))
-                    record(ctx, clause, case, {'expected': ev['want'], 'observed': got})
+            if not judge_event(ctx, ev, got, hist, i):
                 return False
-        return True
+        ok = True
+        for ev in finals:
+            got = perform(ev, heap, reg)
+            ctx.evals += 1
+            ok = judge_event(ctx, ev, got, list(hist) + [ev], len(hist)) and ok
+            if got.get('cls') == 'DidNotTerminate':
+                break
+        return ok
     finally:
         reg.clean()
 
 
-def s2c_registry(ctx, emitted):
-    """TLC's simulator prints, for every random behaviour, all complete histories that share its first
-    Depth - 1 steps (the last step is exhaustive over the enabled actions); all of them are replayed"""
-    seen = set()
-    k = 0
-    for e in emitted:
-        hist = e['hist']
-        if repr(hist) in seen:
-            continue
-        seen.add(repr(hist))
+def s2c_registry(ctx, emitted, k0=0):
+    for k, e in enumerate(emitted, k0):
         if settled(ctx):
-            ctx.assumptions.append('history replay stopped early: %d calls did not terminate' % _hung[0])
+            ctx.assumptions.append('history replay stopped early: calls did not terminate')
             return
-        replay_history(ctx, hist)
+        hist = e['hist']
+        fin = e['finals']
+        finals = list(fin['fetch']) + list(fin['query']) + list(fin['queryobj'])
+        replay_history(ctx, hist, finals)
         ctx.traces += 1
         ops = [ev['op'] for ev in hist]
-        if sum(o.startswith('Register') for o in ops) >= 2 and any(o == 'Query' for o in ops):
+        if sum(o.startswith('Register') for o in ops) >= 2 and finals:
             ctx.note(('hist', repr(hist)))
-        if k % 999 == 0:
-            ctx.sample({'s2c_registry_history': hist})
-        k += 1
+        regs = [ev for ev in hist if ev.get('p')]
+        for ev in regs[1:]:
+            p = ev['p']
+            for name, hit in (('empty-holidays', p['hol'] == [[]]), ('empty-weekend', p['wk'] == [[]]), ('weekend-change', bool(p['wk'])),
+                              ('only-t0', bool(p['lo']) and not (p['hol'] or p['wk'] or p['hi'])),
+                              ('only-t1', bool(p['hi']) and not (p['hol'] or p['wk'] or p['lo'])),
+                              ('by-object', ev['op'] == 'RegisterObjectWith')):
+                if hit:
+                    ctx.note(('hist-' + name, repr(hist)))
+        if k % 299 == 0:
+            ctx.sample({'s2c_registry_history': hist, 'finals': len(finals), 'first_finals': finals[:3]})
+
+
+def dedup(emitted):
+    seen, res = set(), []
+    for e in emitted:
+        r = repr(e['hist'])
+        if r not in seen:
+            seen.add(r)
+            res.append(e)
+    return res
+
+
+def simulate_histories(ctx, runs, num, depth):
+    """`runs` independent single-worker TLC simulations (seeded, hence reproducible) side by side"""
+    from concurrent.futures import ThreadPoolExecutor
+    kws = [dict(simulate=num, depth=depth + 1, seed=ctx.seed * 101 + i + 1, workers=1, heap='1g', env=JVM) for i in range(runs)]
+    par = max(1, min(runs, nproc()))
+    cap = os.environ.pop('VERIF_TLC_WORKERS', None)     # (it would override workers=1; a simulation is reproducible with one worker only)
+    try:
+        with ThreadPoolExecutor(par) as ex:
+            rs = list(ex.map(lambda kw: tlc.run('MC_CalendarReg', 'MC_CalendarReg_sim.cfg', **kw), kws))
+    except tlc.TLCError as e:
+        raise Machinery(str(e))
+    finally:
+        if cap is not None:
+            os.environ['VERIF_TLC_WORKERS'] = cap
+    emitted = []
+    for r in rs:
+        if r.violated:
+            raise Machinery('generator MC_CalendarReg/MC_CalendarReg_sim.cfg violated %s' % r.violated)
+        ctx.states += r.distinct; ctx.transitions += r.generated
+        ctx.tlc_runs.append({'kind': 'S2C-generate', 'cmd': r.cmd, 'generated': r.generated, 'distinct': r.distinct,
+                             'wall_s': round(r.wall, 1), 'emitted': len(r.emitted)})
+        emitted += r.emitted
+    emitted = dedup(emitted)
+    if not emitted:
+        raise Machinery('generator MC_CalendarReg/MC_CalendarReg_sim.cfg emitted nothing')
+    return emitted
 
 
 # ---- C2S: random realistic calendars, validated by Trace_Calendar ----------------------------------
@@ -374,16 +503,18 @@ def month_ends(lo, hi):
         y, m = y2, m2
 
 
-def rand_calendar(rng):
+def rand_calendar(rng, edge=False):
+    """edge: a tight range - holidays anywhere in it, often on its first / last day, which is often a weekend day"""
     lo = datetime.date(rng.randrange(1990, 2035), rng.randrange(1, 13), rng.randrange(1, 29)).toordinal()
-    hi = lo + rng.choice([730, 731, 700, 760])
-    a, b = lo + MARGIN, hi - MARGIN
-    density = rng.choice([0.0, 0.02, 0.05, 0.1, 0.2, 0.3, 0.4])
+    hi = lo + (rng.choice([730, 731, 700, 760]) if not edge else rng.choice([45, 90, 200, 366]))
+    margin = 0 if edge else MARGIN
+    a, b = lo + margin, hi - margin
+    density = rng.choice([0.0, 0.02, 0.05, 0.1, 0.2, 0.3, 0.4]) if not edge else rng.choice([0.02, 0.05, 0.1, 0.2, 0.3])
     hol = set()
     ends = month_ends(a + 12, b - 12)
     if density > 0:
         # runs across month ends (and whatever weekend falls there)
-        for e in rng.sample(ends, rng.randrange(1, min(6, len(ends)) + 1)):
+        for e in (rng.sample(ends, rng.randrange(1, min(6, len(ends)) + 1)) if ends else ()):
             before, after = rng.randrange(0, 6), rng.randrange(0, 6)
             hol.update(range(e - before + 1, e + after + 1))
         target = density * (b - a + 1)
@@ -391,16 +522,28 @@ def rand_calendar(rng):
             s = rng.randrange(a, b + 1)
             run = rng.choice([1, 1, 1, 1, 2, 2, 3, 4, 5, 7, 10])
             hol.update(x for x in range(s, s + run) if a <= x <= b)
+    if edge:
+        for end, step in ((lo, 1), (hi, -1)):
+            r = rng.random()
+            if r < 0.5:
+                hol.add(end)
+            if r < 0.2:
+                hol.add(end + step)
+            if 0.4 < r < 0.6:
+                hol.add(end + 2 * step)
     cfg = {'hol': sorted(hol), 'wk': rng.choice(WEEKENDS), 'adj': rng.choice(['f', 'p', 'm']), 'lo': lo, 'hi': hi}
     return cfg, ends
 
 
-def rand_queries(rng, cfg, ends, nq):
-    a, b = cfg['lo'] + MARGIN, cfg['hi'] - MARGIN
+def rand_queries(rng, cfg, ends, nq, edge=False):
+    margin = 0 if edge else MARGIN
+    a, b = cfg['lo'] + margin, cfg['hi'] - margin
     hol = cfg['hol']
 
     def day():
         r = rng.random()
+        if edge and r < 0.5:
+            return rng.choice([a + rng.randrange(0, 4), b - rng.randrange(0, 4)])
         if r < 0.35 and hol:
             return min(b, max(a, rng.choice(hol) + rng.randrange(-2, 3)))
         if r < 0.55 and ends:
@@ -408,15 +551,17 @@ def rand_queries(rng, cfg, ends, nq):
         return rng.randrange(a, b + 1)
 
     def n():
+        if edge:
+            return rng.choice([-5, -3, -2, -2, -1, -1, 0, 1, 1, 2, 2, 3, 5, rng.randrange(-12, 13)])
         return rng.choice([-40, -21, -10, -5, -3, -2, -2, -1, -1, 0, 1, 1, 2, 2, 3, 5, 10, 21, 40, rng.randrange(-40, 41), rng.randrange(-40, 41)])
 
     def adj():
-        return rng.choice(['', '', '', 'f', 'p', 'm'])
+        return rng.choice(['', '', 'f', 'p', 'm'])
 
     qs = []
     for _ in range(nq):
         op = rng.choice(['is_bday', 'is_holiday', 'adjust', 'adjust', 'add', 'add', 'add', 'add', 'dt_bump', 'dt_bump', 'bump0',
-                         'bdays', 'bdays_add', 'add_inv', 'add_twice', 'drange', 'clock_diff', 'fetch'])
+                         'bdays', 'bdays_add', 'add_inv', 'add_twice', 'add_split', 'drange', 'drange', 'clock_diff', 'fetch'])
         t = day()
         if op == 'fetch':
             qs.append(qdict('fetch', 0, 0, 0, ''))
@@ -424,26 +569,29 @@ def rand_queries(rng, cfg, ends, nq):
             qs.append(qdict(op, t, 0, 0, ''))
         elif op == 'adjust':
             qs.append(qdict(op, t, 0, 0, adj()))
-        elif op in ('add', 'add_inv', 'bdays_add'):
+        elif op in ('add', 'add_inv', 'bdays_add', 'dt_bump'):
             qs.append(qdict(op, t, n(), 0, adj()))
-        elif op == 'dt_bump':
-            qs.append(qdict(op, t, n(), 0, ''))
+        elif op == 'add_split':
+            qs.append(qdict(op, t, n() or 2, 0, adj()))
         elif op == 'bump0':
-            qs.append(qdict(op, t, rng.choice([-1, 1]), 0, ''))
+            qs.append(qdict(op, t, rng.choice([-1, 1]), 0, adj()))
         elif op == 'add_twice':
             qs.append(qdict(op, t, rng.choice([-1, 1]), 0, adj()))
         elif op == 'bdays':
             u = min(b, max(a, t + rng.choice([0, 1, 3, 7, 30, 90, -1, -5, -40, rng.randrange(-200, 201)])))
             qs.append(qdict(op, t, 0, u, adj()))
-        else:  # drange (forward only), clock_diff
+        elif op == 'drange':   # forwards, single-day, both ends adjusting to one day, backwards
+            u = min(b, max(a, t + rng.choice([0, 0, 1, 2, 5, 9, 31, 62, -1, -2, -4, rng.randrange(0, 120)])))
+            qs.append(qdict(op, t, 0, u, ''))
+        else:  # clock_diff
             u = min(b, t + rng.choice([0, 1, 2, 5, 9, 31, 62, rng.randrange(0, 120)]))
-            if op == 'clock_diff' and rng.random() < 0.4:
+            if rng.random() < 0.4:
                 t, u = u, t
             qs.append(qdict(op, t, 0, u, ''))
     return qs
 
 
-def observe_calendar(rng, cfg, qs, i):
+def observe_calendar(rng, cfg, qs, edge):
     """make the calendar through the registry (sometimes over a decoy that was registered and populated
     under the same key before), put the queries to calendar(key), log the outcomes"""
     from pyg_base import Calendar, calendar
@@ -452,7 +600,7 @@ def observe_calendar(rng, cfg, qs, i):
     try:
         decoy = rng.random() < 0.5
         if decoy:
-            a, b = cfg['lo'] + MARGIN, cfg['hi'] - MARGIN
+            a, b = (cfg['lo'] + MARGIN, cfg['hi'] - MARGIN) if not edge else (cfg['lo'], cfg['hi'])
             other = sorted(set(rng.randrange(a, b + 1) for _ in range(rng.choice([0, 5, 40]))))
             wk = list(rng.choice(WEEKENDS))
             try:
@@ -462,11 +610,11 @@ def observe_calendar(rng, cfg, qs, i):
                 pass                                          # the decoy is only a disturbance; the real calendar is judged
         how = 'registry' if (cfg['adj'] == 'm' and rng.random() < 0.6) else 'object'
         events = []
+        base = {'cfg': cfg, 'how': how, 'decoy': decoy, 'edge': 1 if edge else 0}
         try:
             make(cfg, key, how)
         except Exception as e:
-            return {'cfg': cfg, 'how': how, 'decoy': decoy,
-                    'qs': [{'q': qdict('fetch', 0, 0, 0, ''), 'out': {'kind': 'exc', 'cls': type(e).__name__}}]}
+            return dict(base, qs=[{'q': qdict('fetch', 0, 0, 0, ''), 'out': {'kind': 'exc', 'cls': type(e).__name__}}])
         hung = 0
         for q in qs:
             cal = calendar(key)
@@ -476,7 +624,134 @@ def observe_calendar(rng, cfg, qs, i):
             if hung >= 2:
                 break
         events.append({'q': qdict('fetch', 0, 0, 0, ''), 'out': holidays_of(calendar(key))})   # the operand after the calls
-        return {'cfg': cfg, 'how': how, 'decoy': decoy, 'qs': events}
+        return dict(base, qs=events)
+    finally:
+        reg.clean()
+
+
+# ---- C2S 2: random histories of the registry on real calendars ---------------------------------------
+def rand_history(rng, nev):
+    """a random history in the vocabulary of Trace_Calendar (events without outcomes).  Every holiday lies in the
+    innermost of the ranges used, so that whatever is given / inherited the holidays are inside the range; the only
+    bookkeeping is which handles have a range of 400 years (those are asked loop-path questions only - an economy)"""
+    L0 = datetime.date(rng.randrange(1990, 2035), rng.randrange(1, 13), rng.randrange(1, 29)).toordinal()
+    H0 = L0 + rng.choice([200, 366, 500])
+    L1, H1 = L0 + rng.randrange(0, 40), H0 - rng.randrange(0, 40)        # the innermost range L1..H1
+    los, his = [L0, L1], [H0, H1]
+
+    def holset():
+        r = rng.random()
+        if r < 0.2:
+            return []
+        hol = set()
+        for _ in range(rng.choice([1, 2, 4, 8, 20])):
+            s = rng.randrange(L1, H1 + 1)
+            hol.update(x for x in range(s, s + rng.choice([1, 1, 1, 2, 3, 5])) if L1 <= x <= H1)
+        for e in month_ends(L1 + 3, H1 - 3)[:rng.randrange(0, 3)]:
+            hol.update(range(e - rng.randrange(0, 4), e + rng.randrange(1, 4)))
+        if rng.random() < 0.4:
+            hol.add(H1)
+        if rng.random() < 0.4:
+            hol.add(L1)
+        return sorted(hol)
+
+    pools = [holset() for _ in range(3)]
+    hot = sorted(set(d for h in pools for d in h))                       # days whose status changes between registrations
+
+    def params(must, derive):
+        while True:
+            p = {'hol': [], 'wk': [], 'lo': [], 'hi': []}
+            if rng.random() < 0.55:
+                p['hol'] = [rng.choice(pools + [[]])]
+            if rng.random() < 0.45:
+                p['wk'] = [list(rng.choice(WEEKENDS))]
+            r = rng.random()
+            if r < (0.25 if derive else 0.75):
+                p['lo'], p['hi'] = [rng.choice(los)], [rng.choice(his)]
+            elif r < (0.4 if derive else 0.82):
+                p['lo'] = [rng.choice(los)]
+            elif r < (0.55 if derive else 0.9):
+                p['hi'] = [rng.choice(his)]
+            if not must or any(p.values()):
+                return p
+
+    def day():
+        r = rng.random()
+        if r < 0.5 and hot:
+            return min(H1, max(L1, rng.choice(hot) + rng.randrange(-2, 3)))
+        if r < 0.65:
+            return rng.choice([L1 + rng.randrange(0, 3), H1 - rng.randrange(0, 3)])
+        return rng.randrange(L1, H1 + 1)
+
+    def query(wide):
+        a = rng.choice(['', 'f', 'p', 'm', 'f', 'p'])
+        t = day()
+        if wide:        # a handle whose range has 400 years: loop path only
+            op = rng.choice(['is_bday', 'adjust', 'add', 'add', 'add_twice', 'bump0', 'dt_bump'])
+            return qdict(op, t, rng.choice([-1, 1]) if op in ('add_twice', 'bump0') else rng.choice([-1, 0, 1]) if op in ('add', 'dt_bump') else 0, 0,
+                         '' if op == 'is_bday' else a)
+        op = rng.choice(['is_bday', 'is_bday', 'adjust', 'add', 'add', 'add', 'dt_bump', 'bdays', 'bdays_add', 'add_split', 'add_inv', 'drange', 'add_twice'])
+        if op == 'is_bday':
+            return qdict(op, t, 0, 0, '')
+        if op == 'adjust':
+            return qdict(op, t, 0, 0, a)
+        if op in ('add', 'dt_bump', 'bdays_add', 'add_inv'):
+            return qdict(op, t, rng.choice([-12, -5, -3, -2, -2, -1, 0, 1, 2, 2, 3, 5, 12]), 0, a)
+        if op == 'add_split':
+            return qdict(op, t, rng.choice([-4, -3, -2, 2, 3, 4]), 0, a)
+        if op == 'add_twice':
+            return qdict(op, t, rng.choice([-1, 1]), 0, a)
+        u = min(H1, max(L1, t + rng.choice([0, 1, 3, 8, 30, -1, -3])))
+        return qdict(op, t, 0, u, a if op == 'bdays' else '')
+
+    evs, heap, reg = [], [], {}      # heap: [key, has t0, has t1]; reg: key -> position of the handle now registered
+    for _ in range(nev):
+        r = rng.random()
+        k = rng.choice(['a', 'a', 'b', 'c'])
+        if not heap or r < 0.22:
+            p = params(True, False)
+            heap.append([k, bool(p['lo']), bool(p['hi'])]); reg[k] = len(heap)
+            evs.append({'op': 'reg', 'k': k, 'p': p})
+        elif r < 0.29:
+            p = params(False, False)
+            heap.append([k, bool(p['lo']), bool(p['hi'])])
+            evs.append({'op': 'con', 'k': k, 'p': p, 'adj': rng.choice(['f', 'p', 'm'])})
+        elif r < 0.36:
+            o = rng.randrange(len(heap)) + 1
+            reg[heap[o - 1][0]] = o
+            evs.append({'op': 'rego', 'o': o})
+        elif r < 0.56:
+            o = rng.choice([rng.randrange(len(heap)) + 1] + list(reg.values()))
+            p = params(True, True)
+            src = heap[o - 1]
+            heap.append([src[0], src[1] or bool(p['lo']), src[2] or bool(p['hi'])]); reg[src[0]] = len(heap)
+            evs.append({'op': 'regw', 'o': o, 'p': p})
+        elif r < 0.6 and reg:
+            evs.append({'op': 'fetch', 'k': rng.choice(sorted(reg))})
+        elif r < 0.93 and reg:
+            k = rng.choice(sorted(reg))
+            h = heap[reg[k] - 1]
+            evs.append({'op': 'q', 'k': k, 'q': query(not (h[1] and h[2]))})
+        else:
+            o = rng.randrange(len(heap)) + 1
+            h = heap[o - 1]
+            evs.append({'op': 'qo', 'o': o, 'q': query(not (h[1] and h[2]))})
+    for k in sorted(reg):
+        evs.append({'op': 'fetch', 'k': k})                            # the operands after the calls
+    return evs
+
+
+def observe_history(evs):
+    reg = Registry()
+    heap = []
+    out = []
+    try:
+        for ev in evs:
+            got = perform(ev, heap, reg)
+            out.append(dict(ev, out=got))
+            if got.get('cls') == 'DidNotTerminate':
+                break
+        return {'kind': 'hist', 'evs': out}
     finally:
         reg.clean()
 
@@ -485,46 +760,86 @@ def judge(ctx, obs, bad):
     for line, clause in bad:
         o = obs[line - 1]
         name, _, pos = clause.partition(':')
-        if name in ('out_of_domain', 'bad_config', 'spec_monthno'):
+        if name in ('out_of_domain', 'bad_config', 'spec_monthno') or name.startswith('bad_history'):
             raise Machinery('the C2S driver left the claimed domain, or the specification failed its self-check: line %d %s' % (line, clause))
+        if 'evs' in o:
+            i = int(pos) - 1
+            ev = o['evs'][i]
+            hist = [{k: v for k, v in e.items() if k != 'out'} for e in o['evs'][:i + 1]]
+            case = history_case(hist[-1], hist, i)
+            case['kind'] = 'c2s_history'
+            record(ctx, name, case, {'observed': ev['out'], 'position': int(pos)})
+            continue
         e = o['qs'][int(pos) - 1]
         if name == 'registry_reflects_holidays':
-            case = {'op': 'fetch', 'kind': 'c2s', 'how': o['how'], 'decoy': o['decoy'], 'cfg': o['cfg']}
+            case = {'op': 'fetch', 'kind': 'c2s', 'how': o['how'], 'decoy': o['decoy'], 'cfg': o['cfg'], 'edge': o['edge']}
         else:
-            case = case_of(o['cfg'], e['q'], how=o['how'], decoy=o['decoy'], kind='c2s')
+            case = case_of(o['cfg'], e['q'], how=o['how'], decoy=o['decoy'], kind='c2s', edge=o['edge'])
         record(ctx, name, case, {'observed': e['out'], 'position': int(pos)})
 
 
-def c2s(ctx, ncal, nq):
-    obs = []
-    for i in range(ncal):
-        cfg, ends = rand_calendar(ctx.rng)
-        qs = rand_queries(ctx.rng, cfg, ends, nq)
-        obs.append(observe_calendar(ctx.rng, cfg, qs, i))
-        if sum(e['out'].get('cls') == 'DidNotTerminate' for o in obs for e in o['qs']) >= MAX_HUNG:
-            break                                             # enough evidence; the log so far is still judged by TLC
-    nqs = sum(len(o['qs']) for o in obs)
+def _observe_chunk(col, specs, k0):
+    import random
+    col.obs = []
+    for kind, seed, n in specs:
+        rng = random.Random(seed)
+        if kind == 'hist':
+            col.obs.append(observe_history(rand_history(rng, n)))
+        else:
+            cfg, ends = rand_calendar(rng, edge=(kind == 'edge'))
+            col.obs.append(observe_calendar(rng, cfg, rand_queries(rng, cfg, ends, n, edge=(kind == 'edge')), kind == 'edge'))
+
+
+def c2s(ctx, ncal, nq, nedge, nhist, nev):
+    """every observation is made from its own seed (drawn here, in order), so the log does not depend on how the
+    work is spread over processes"""
+    specs = [('cal', ctx.rng.randrange(1 << 30), nq) for _ in range(ncal)] + [('edge', ctx.rng.randrange(1 << 30), nq // 2) for _ in range(nedge)] \
+        + [('hist', ctx.rng.randrange(1 << 30), nev) for _ in range(nhist)]
+    import multiprocessing
+    import pyg_base                    # (before the fork: the workers inherit the imported library)
+    n = nproc()
+    size = max(1, -(-len(specs) // (4 * n)))
+    jobs = [(_observe_chunk, specs[i:i + size], i) for i in range(0, len(specs), size)]
+    if n == 1:
+        cols = [_worker(j) for j in jobs]
+        signal.signal(signal.SIGVTALRM, _alarm)
+    else:
+        with multiprocessing.get_context('fork').Pool(n) as pool:
+            cols = pool.map(_worker, jobs, chunksize=1)
+    obs = [o for col in cols for o in col.obs]
+    nqs = sum(len(o.get('qs', o.get('evs', ()))) for o in obs)
     ctx.evals += nqs
     bad = ctx.validate('Trace_Calendar', obs, env=JVM)
     judge(ctx, obs, bad)
     for o in obs:
+        if 'evs' in o:
+            regs = [e for e in o['evs'] if e.get('p')]
+            if len(regs) >= 2:
+                ctx.note(('c2s-hist', repr(o['evs'])))
+            continue
         if o['cfg']['hol']:
             for e in o['qs']:
                 q = e['q']
                 ctx.note(('c2s', o['cfg']['lo'], tuple(o['cfg']['wk']), o['cfg']['adj'], q['op'], q['t'], q['n'], q['u'], q['a']))
-    o = obs[len(obs) // 2]
-    ctx.sample({'c2s_calendar': {'cfg': {**o['cfg'], 'hol': o['cfg']['hol'][:8] + ['...']}, 'how': o['how'], 'decoy': o['decoy'],
-                                 'queries': o['qs'][:5]}})
+    o = obs[ncal // 2] if ncal else None
+    if o:
+        ctx.sample({'c2s_calendar': {'cfg': {**o['cfg'], 'hol': o['cfg']['hol'][:8] + ['...']}, 'how': o['how'], 'decoy': o['decoy'],
+                                     'queries': o['qs'][:5]}})
+    if nhist:
+        ctx.sample({'c2s_history': obs[-1]['evs'][:8]})
     return obs
 
 
 def replay(ctx, body):
     """./check C05 --replay <file>: re-execute one recorded violation (history: against the expectations TLC
-    printed; arithmetic: the query is put to a fresh calendar and judged again by Trace_Calendar)"""
+    printed; recorded history / arithmetic: put to fresh calendars and judged again by Trace_Calendar)"""
     signal.signal(signal.SIGVTALRM, _alarm)
     case = body['case']
     if case.get('kind') == 'history':
         replay_history(ctx, case['history'])
+    elif case.get('kind') == 'c2s_history':
+        obs = [observe_history(case['history'])]
+        judge(ctx, obs, ctx.validate('Trace_Calendar', obs, env=JVM))
     else:
         cfg = case['cfg']
         q = qdict('fetch', 0, 0, 0, '') if case['op'] == 'fetch' else qdict(case['op'], case['t'], case['n'], case['u'],
@@ -536,7 +851,7 @@ def replay(ctx, body):
             out = holidays_of(cal) if q['op'] == 'fetch' else ask(cal, q)
         finally:
             reg.clean()
-        obs = [{'cfg': cfg, 'how': how, 'decoy': False, 'qs': [{'q': q, 'out': out}]}]
+        obs = [{'cfg': cfg, 'how': how, 'decoy': False, 'edge': case.get('edge', 0), 'qs': [{'q': q, 'out': out}]}]
         judge(ctx, obs, ctx.validate('Trace_Calendar', obs, env=JVM))
     for v in ctx.violations:
         print('STILL FAILS clause=%s detail=%s' % (v['clause'], str(v['detail'])[:300]))
@@ -549,34 +864,45 @@ def replay(ctx, body):
 
 def run(ctx):
     signal.signal(signal.SIGVTALRM, _alarm)
-    ctx.rule = ('S2C: (a) every in-domain query MC_Calendar enumerates for a seeded 1-in-GenMod sample of the configurations '
-                '(all holiday subsets of a window across a weekend and a month end x 4 weekends x f/p/m) x every day, replayed on real '
-                'Calendar objects (made by the class, by calendar(key, ...) or by calendar(obj)); (b) histories of the registry machine '
-                'MC_CalendarReg replayed through calendar(...)/Calendar(...). C2S: random 2-year calendars (holiday density 0-40 %, runs '
-                'across month ends and weekends), queries with n in -40..40, validated by Trace_Calendar by counting on ordinals. '
+    ctx.rule = ('S2C: (a) every in-domain query MC_Calendar enumerates for a seeded 1-in-GenMod sample of the configurations of each family '
+                '(all holiday subsets of a window across a weekend and a month end x 4 weekends x f/p/m x ranges that are wide, tight, or begin / end '
+                'exactly on the window so that the first / last day is a holiday or a weekend day) x every day - incl. single-day and backward '
+                'dranges and a passed adj on both paths of add - replayed on real Calendar objects (made by the class, by calendar(key, ...) or '
+                'by calendar(obj)); (b) random histories of the registry machine MC_CalendarReg (every subset of holidays / weekend / t0 / t1 given, '
+                'not given or given empty, by key and by object, old handles registered again) replayed through calendar(...)/Calendar(...), each '
+                'followed by every final question TLC printed for the state reached. C2S: random 2-year calendars (holiday density 0-40 %, runs '
+                'across month ends and weekends), queries with n in -40..40; tight calendars asked at their ends; random histories of '
+                're-registrations on real calendars; all validated by Trace_Calendar by counting on ordinals. '
                 'Non-trivial = the calendar has at least one holiday (arith: distinct (configuration, day); C2S: distinct query); '
-                'history: at least two registrations and a query by key.')
+                'history: at least two registrations and a final question.')
     q = ctx.quick
+    seed = {'C05_SEED': ctx.seed % 1000, **JVM}
     # MC_Calendar has the single action Eval (one step per initial state), so TLC's expression coverage - which doubles
     # its run time - has nothing to say about vacuity there; that every behaviour took its step is checked on the counts
-    r = ctx.mc('MC_Calendar', 'MC_Calendar_quick.cfg' if q else 'MC_Calendar_thorough.cfg', env=JVM, coverage=False)
+    r = ctx.mc('MC_Calendar', 'MC_Calendar_quick.cfg' if q else 'MC_Calendar_thorough.cfg', env=seed, coverage=False)
     if r.distinct != r.generated or r.distinct % 2:
         raise Machinery('MC_Calendar: not every (configuration, day) was evaluated')
     ctx.mc('MC_CalendarReg', 'MC_CalendarReg_quick.cfg' if q else 'MC_CalendarReg_thorough.cfg', env=JVM)
     if not q:
-        ctx.mc('MC_Calendar', 'MC_Calendar_thorough2.cfg', env=JVM, coverage=False)
+        ctx.mc('MC_Calendar', 'MC_Calendar_thorough2.cfg', env=seed, coverage=False)
         ctx.mc('MC_CalendarReg', 'MC_CalendarReg_thorough2.cfg', env=JVM)
-    s2c_arith(ctx, ctx.generate('MC_Calendar', 'MC_Calendar_gen_quick.cfg' if q else 'MC_Calendar_gen_thorough.cfg',
-                                env={'C05_SEED': ctx.seed % 1000, **JVM}))
-    s2c_registry(ctx, ctx.generate('MC_CalendarReg', 'MC_CalendarReg_sim.cfg', simulate=60 if q else 600, depth=8,
-                                   seed=ctx.seed, workers=1, env=JVM))
-    c2s(ctx, 200 if q else 2000, 150)
+    lines = ctx.generate('MC_Calendar', 'MC_Calendar_gen_quick.cfg' if q else 'MC_Calendar_gen_thorough.cfg', env=seed)
+    ctx.extra['arith_families'] = check_families(lines)
+    spread(ctx, s2c_arith, lines)
+    spread(ctx, s2c_registry, simulate_histories(ctx, 4, 300 if q else 3000, 7))
+    c2s(ctx, 160 if q else 1600, 150, 60 if q else 600, 150 if q else 1500, 24)
     ctx.exhaustive = False
     ctx.assumptions += [
         'holidays are given as midnight datetimes inside the calendar range; days asked about are midnight datetimes',
-        'claimed domain: the day asked about, the adjusted day and the result lie inside [t0, t1] (C2S keeps 130 holiday-free days at both ends)',
+        'claimed domain: the day asked about, the adjusted day and the result lie inside [t0, t1] (C2S: 130 holiday-free days at both ends, or - '
+        'tight calendars and histories - Trace_Calendar leaves questions outside the domain unjudged)',
         'is_holiday is not pinned by the statement (accepted as "not a business day" or "a listed holiday"); bdays(t, u) and clock '
         'differences are judged only where the end points named by the statement are business days',
-        'small scope: MC windows of 7 (quick) / 10 (thorough) days, n in -8..8; registry MC with <= 2 (quick) / 3 (thorough) objects',
-        'drange is asked forwards (t0 <= t1) with bump 1b only',
+        '"registered with" is read literally: calendar(key, ...) registers what the call gives and the documented defaults for the rest; '
+        'calendar(obj, ...) derives from obj (given replaces, not given is kept); the convention of a derived calendar is not pinned',
+        'calendar(key) on a key that was never registered is not asked; handles kept from earlier registrations are not queried '
+        '(but may be registered again with calendar(handle)); calendars with the default 400-year range are asked loop-path questions only',
+        'small scope: MC windows of 7 (quick: seeded 1-in-10 sample of 6 families) / 10 (thorough: exhaustive) days, n in -8..8; registry MC with <= 2 '
+        '(quick) / 3 (thorough) objects',
+        'drange is asked with bump 1b only (forwards, single-day and backwards)',
     ]
